@@ -47,7 +47,9 @@ def run_history(ctx, rng, case, est, Q, rate, hname, hf, keys, nsteps, p_pushpop
                 f.add(key, force) if force else f.add(key)
             else:
                 case.op("add_alt", key, force)
-                f.add_alt((hf or _default())(key, refimpl.bloom_sizing_simple(est, rate)[1] + rng.choice([0, 0, 2, 5])), force)
+                arg, cp = bl.alt_arg(ctx, (hf or _default())(key, refimpl.bloom_sizing_simple(est, rate)[1] + rng.choice([0, 0, 2, 5])))
+                f.add_alt(arg, force)
+                bl.arg_unchanged(ctx, arg, cp, "add_alt")
             calls += 1
             if eff:
                 if counts[-1] == est:
@@ -222,6 +224,7 @@ def wl_est_sweep(ctx, rng, case):
     total = est * Q + est + 2
     eff = 0
     i = 0
+    inserted = []
     while eff < total and i < 3 * total + 50:
         key = f"rsweep-{est}-{i}"
         i += 1
@@ -230,9 +233,18 @@ def wl_est_sweep(ctx, rng, case):
         if present:
             continue
         eff += 1
+        inserted.append(key)
         ctx.counters["oracle_evaluations"] += 1
         if not f.check(key):
             ctx.fail(f"a key that was absent just before its add is absent right after it (est={est}, queue={Q}, insertion {eff})", key=key)
+        # retention: the key inserted (queue-1)*est - 1 effective insertions ago is still inside its guaranteed window
+        back = (Q - 1) * est - 1
+        if 0 < back < len(inserted):
+            old = inserted[-1 - back]
+            ctx.counters["oracle_evaluations"] += 1
+            if not f.check(old):
+                ctx.fail(f"a key is reported absent after only {back} further effective insertions; the guaranteed window is (queue-1)*est = {(Q - 1) * est} (est={est}, queue={Q})", key=old)
+            ctx.count("sweep_retention_checks")
         if eff % est in (0, 1) or eff == total:
             st, counts = counts_of(f)
             ctx.check(1 <= len(counts) <= Q, f"queue holds {len(counts)} filters, limit {Q} (est={est}, insertion {eff})", counts=counts)
